@@ -48,6 +48,11 @@ def main():
         for _ in range(2 if not thorough else 4):
             ops = rng.sample(cands, rng.randint(1, min(3, len(cands))))
             add(m, {"mode": "custom", "ops": ops}, "custom-linear")
+        # the fermion parity: conserved by every model, not linear in the occupation numbers (the linear part 1 - 2N alone is NOT conserved
+        # when a pair field breaks N), alone and next to linear candidates
+        if models.nmodes(m) <= 4:
+            add(m, {"mode": "custom", "ops": [models.parity(models.nmodes(m))]}, "custom-parity")
+            add(m, {"mode": "custom", "ops": [models.parity(models.nmodes(m))] + rng.sample(cands, 1)}, "custom-parity")
     # symmetry broken only by a term that is tiny but numerically non-zero (2^-30 ... 2^-20): the acceptance test of an integral of motion
     # and the matrix elements H is built from must agree on what "zero" is, or H gets elements between blocks.  The specification
     # knows the unperturbed model only; the perturbation is seen through the library's own operator expression (event field "cross").
